@@ -2,7 +2,7 @@
    proofs/IntervalsProofs.v, the model in model/Intervals.v. *)
 From Coq Require Import List Bool Arith Permutation PrimFloat Reals ZArith.
 From V.model Require Import Intervals.
-From V.proofs Require Import IntervalsProofs FloatOrder FloatMono ArangeOrder.
+From V.proofs Require Import IntervalsProofs FloatOrder FloatMono ArangeOrder LinspaceLast.
 From V.base Require Import FloatBits.
 Import ListNotations.
 
@@ -159,6 +159,27 @@ Theorem C10_number_edges_sorted_partial : forall (v0 v1 : PrimFloat.float) (n : 
   (fleb (last starts v0) v1 = true -> sorted PrimFloat.float fleb edges).
 Proof. exact number_edges_sorted. Qed.
 
+(* ... and the closing comparison too, for 1 <= n <= 2^51 whose step (v1 - v0)/n is zero or above 2^-1022 (not subnormal): three
+   correctly rounded operations lose at most a factor (1 + 2^-53)^3, which (n-1)/n absorbs; for subnormal steps the absolute rounding
+   error can exceed the slack (v1 - v0)/n and the statement is false in general, so the hypothesis is needed *)
+Theorem C10_number_edges_sorted : forall (v0 v1 : PrimFloat.float) (n : nat),
+  PrimFloat.is_finite v0 = true -> PrimFloat.is_finite v1 = true -> PrimFloat.leb v0 v1 = true ->
+  PrimFloat.is_finite (v1 - v0)%float = true -> 1 <= n -> (Z.of_nat n <= 2 ^ 51)%Z ->
+  PrimFloat.eqb ((v1 - v0) / of_nat n) 0 = true \/ PrimFloat.ltb 0x1p-1022 ((v1 - v0) / of_nat n) = true ->
+  sorted PrimFloat.float fleb (snd (number_edges v0 v1 n)).
+Proof. exact number_edges_sorted_full. Qed.
+
+(* hence the include_max theorem for the Number slicer's executable model with no sortedness hypothesis left *)
+Theorem C10_number_partition_every_input : forall (v0 v1 : PrimFloat.float) (n : nat) R (refs : list R) data a b e j d0,
+  PrimFloat.is_finite v0 = true -> PrimFloat.is_finite v1 = true -> PrimFloat.leb v0 v1 = true ->
+  PrimFloat.is_finite (v1 - v0)%float = true -> 1 <= n -> (Z.of_nat n <= 2 ^ 51)%Z ->
+  PrimFloat.eqb ((v1 - v0) / of_nat n) 0 = true \/ PrimFloat.ltb 0x1p-1022 ((v1 - v0) / of_nat n) = true ->
+  snd (number_edges v0 v1 n) = a :: b :: e ->
+  length refs = length (intervals PrimFloat.float (a :: b :: e)) -> j < length data ->
+  fleb a (nth j data d0) = true -> fleb (nth j data d0) (last (b :: e) b) = true ->
+  rows_true_at PrimFloat.float j (rows_of PrimFloat.float fleb RightOpen true (snd (number_edges v0 v1 n)) refs data) = 1.
+Proof. exact number_partition_every_input. Qed.
+
 (* non-vacuity of the binary64 statements: width 0.1 from 0 to 0.35 *)
 Example C10_width_nonvacuous :
   PrimFloat.is_finite 0.1%float = true /\ PrimFloat.leb 0 0.1%float = true /\
@@ -196,3 +217,5 @@ Print Assumptions C10_arange_sorted.
 Print Assumptions C10_width_edges_sorted.
 Print Assumptions C10_width_partition_every_input.
 Print Assumptions C10_number_edges_sorted_partial.
+Print Assumptions C10_number_edges_sorted.
+Print Assumptions C10_number_partition_every_input.
